@@ -33,6 +33,7 @@ def run(ctx) -> None:
     ctx.guard("C05.mix-args", mix_args)
     ctx.guard("C05.mix-formula", mix_formula)
     ctx.guard("C05.div-zero", div_zero)
+    ctx.guard("C05.read-exact", read_exact)
     from . import c01
 
     for dev in concrete_devices(ctx):
@@ -69,6 +70,63 @@ def owner(ctx) -> None:
         t = gfv.res.resolve(r, gfv.node_of(r))
         fresh = fresh and (is_sym(t, "comp") or isinstance(t, ast.Dict))
     ctx.rep.check(fresh, rule, f"{g.qualname}/return", "get_well_composition builds a fresh dict", "get_well_composition hands out internal state", where=g.where())
+
+
+def read_exact(ctx) -> None:
+    """get_well_composition reports the stored fraction of every component that is present: the value is the array
+    element itself and the only components left out are those whose fraction is exactly zero."""
+    rule = "C05.read-exact"
+    g = ctx.prog.require_func("Labware.get_well_composition", rule)
+    fv = ctx.fv(g)
+    selfn = g.params[0]
+    n = 0
+    for rn, val in fv.returns():
+        if isinstance(val, ast.Constant) and val.value is None:
+            continue
+        raw, at = fv.def_expr(rn.ast.value, rn.id)
+        c = f"{g.qualname}/return"
+        w = g.where(rn.ast)
+        if not (isinstance(raw, ast.DictComp) and len(raw.generators) == 1):
+            ctx.rep.inconclusive(rule, c, f"reported composition is built by `{show(raw)[:60]}`, not by one dict comprehension over the component arrays", where=w)
+            continue
+        n += 1
+        gen = raw.generators[0]
+        it = gen.iter
+        ok_it = isinstance(it, ast.Call) and isinstance(it.func, ast.Attribute) and it.func.attr == "items" and (
+            attr_of_name(it.func.value, selfn, "composition") or attr_of_name(it.func.value, selfn, "_composition"))
+        tgt = gen.target
+        if not (ok_it and isinstance(tgt, ast.Tuple) and len(tgt.elts) == 2 and all(isinstance(e, ast.Name) for e in tgt.elts)):
+            ctx.rep.inconclusive(rule, c, f"comprehension does not iterate self.composition.items() as (name, array): `{show(it)[:60]}`", where=w)
+            continue
+        kname, fname = tgt.elts[0].id, tgt.elts[1].id
+
+        def is_elem(e):
+            if not (isinstance(e, ast.Subscript) and is_name(e.value, fname)):
+                return False
+            ix = fv.res.resolve(e.slice, at)
+            return isinstance(ix, ast.Subscript) and (attr_of_name(ix.value, selfn, "indices") or attr_of_name(ix.value, selfn, "_indices")) \
+                and len(g.params) > 1 and is_name(ix.slice, g.params[1])
+
+        ctx.rep.check(is_name(raw.key, kname) and is_elem(raw.value), rule, c + "/value", "reports {name: array[index of the well]}",
+                      f"reported entry is `{show(raw.key)[:30]}: {show(raw.value)[:50]}`; expected the component name with the stored fraction of this well itself", where=w)
+        for cond in gen.ifs:
+            cm = None
+            if isinstance(cond, ast.Compare) and len(cond.ops) == 1:
+                x = ast.Name(id="§x", ctx=ast.Load())
+                l, r = cond.left, cond.comparators[0]
+                if is_elem(l) and not is_elem(r):
+                    cm = to_cmp(ast.Compare(left=x, ops=cond.ops, comparators=[r]), True)
+                elif is_elem(r) and not is_elem(l):
+                    cm = to_cmp(ast.Compare(left=l, ops=cond.ops, comparators=[x]), True)
+            X = Poly.symbol(ast.Name(id="§x", ctx=ast.Load()))
+            if cm is not None and (cm == Cmp(X, ">") or cm == Cmp(X, "!=")):
+                ctx.rep.holds(rule, c + f"/filter[{show(cond)[:30]}]", "only components whose fraction is exactly 0 are left out", where=w)
+            elif cm is not None or any(isinstance(s_, ast.Call) and call_fname(s_) in ("isclose", "allclose", "round", "around") for s_ in ast.walk(cond)):
+                ctx.rep.refuted(rule, c + f"/filter[{show(cond)[:30]}]", f"components are left out of the reported composition by `{show(cond)[:60]}`, which also drops components that are present "
+                                "in a small but non-zero fraction: they are not reported, not passed on by transfers and the fractions no longer sum to 1", where=w)
+            else:
+                ctx.rep.inconclusive(rule, c + f"/filter[{show(cond)[:30]}]", f"cannot decide whether `{show(cond)[:60]}` only leaves out absent components", where=w)
+    ctx.rep.floor(rule, "composition read-outs", n, 1)
 
 
 def _comp_stores(ctx, fv):
